@@ -11,6 +11,8 @@ func Main(args []string) int {
 	switch args[0] {
 	case "debug":
 		return debugCmd(args[1:])
+	case "scan":
+		return scanCmd(args[1:])
 	case "check":
 		return checkCmd(args[1:])
 	}
